@@ -55,7 +55,8 @@ fn leak(v: Vec<u8>) -> &'static [u8] {
 
 pub fn prepare(prog: &Value) -> Result<Prepared, String> {
     let has_gpos = prog["gpos"].as_bool().unwrap_or(false);
-    let gdef_bytes = if has_gpos { Some(leak(enc::gdef(&prog["gdef"]))) } else { None };
+    // GDEF is optional: tab = "absent" builds a font (and an apply call) without it
+    let gdef_bytes = if has_gpos { enc::gdef(&prog["gdef"]).map(leak) } else { None };
     let gpos_bytes = if has_gpos { Some(leak(enc::gpos(prog))) } else { None };
     let kern_list = enc::arr(&prog["kern"]);
     let kern_bytes = if kern_list.is_empty() { None } else { Some(leak(enc::kern(&prog["kern"]))) };
@@ -228,9 +229,18 @@ fn replay(tpl_path: &str, cases_path: &str, out_path: &str) {
     let mut out = NdWriter::create(out_path);
     let mut stats: HashMap<&'static str, u64> = HashMap::new();
     let bump = |k: &'static str, stats: &mut HashMap<&'static str, u64>| *stats.entry(k).or_insert(0) += 1;
+    let mut vac: HashMap<String, u64> = HashMap::new();
     let mut n_cases = 0u64;
     let mut n_mism = 0u64;
     let mut table_bytes = 0usize;
+    let mut fonts_without_gdef = 0u64;
+    for (_, p) in prepared.iter() {
+        if let Ok(p) = p {
+            if p.gpos.is_some() && p.gdef.is_none() {
+                fonts_without_gdef += 1;
+            }
+        }
+    }
     for (_, p) in prepared.iter() {
         if let Ok(p) = p {
             table_bytes += p.sizes.0 + p.sizes.1 + p.sizes.2;
@@ -256,6 +266,14 @@ fn replay(tpl_path: &str, cases_path: &str, out_path: &str) {
         // vacuity counters over the specification's expectation
         if exp.len() > 1 {
             bump("cases_with_several_conformant_outcomes", &mut stats);
+        }
+        // families of behaviour the specification says the case exercises (MC_Gpos!VacTags)
+        if let Some(tags) = case["vac"].as_array() {
+            for t in tags {
+                if let Some(t) = t.as_str() {
+                    *vac.entry(format!("vac:{}", t)).or_insert(0) += 1;
+                }
+            }
         }
         if exp.iter().any(|e| enc::arr(&e["infos"]).iter().any(|i| enc::int(&i["k"]) != 0 || i["pl"]["t"] != "N")) {
             bump("cases_with_some_adjustment_expected", &mut stats);
@@ -331,6 +349,10 @@ fn replay(tpl_path: &str, cases_path: &str, out_path: &str) {
     for (k, v) in stats {
         s.insert(k.to_string(), json!(v));
     }
+    for (k, v) in vac {
+        s.insert(k, json!(v));
+    }
+    s.insert("templates_gpos_without_gdef_table".into(), json!(fonts_without_gdef));
     println!(
         "{}",
         json!({"cases": n_cases, "cases_with_mismatch": n_mism, "templates": prepared.len(),
@@ -343,8 +365,37 @@ fn record(seed: u64, n_prog: usize, n_str: usize, out_path: &str) {
     let mut out = NdWriter::create(out_path);
     let mut i = 0u64;
     let mut kinds: HashMap<String, u64> = HashMap::new();
+    // how many programs / events fall into the families the random generator must reach
+    let mut fam: HashMap<&'static str, u64> = HashMap::new();
     for (pi, (kind, prog, inputs)) in rnd::programs(seed, n_prog, n_str).into_iter().enumerate() {
         *kinds.entry(kind.clone()).or_insert(0) += 1;
+        let has_gpos = prog["gpos"].as_bool().unwrap_or(false);
+        let tab = enc::gdef_tab(&prog["gdef"]).to_string();
+        let gdef_class = |g: i64| -> i64 {
+            if tab != "full" { 0 } else { enc::ints(&prog["gdef"]["cls"]).get(g as usize).copied().unwrap_or(0) }
+        };
+        if has_gpos && tab == "absent" {
+            *fam.entry("programs_gpos_without_gdef").or_insert(0) += 1;
+        }
+        if has_gpos && tab == "noclassdef" {
+            *fam.entry("programs_gdef_without_glyphclassdef").or_insert(0) += 1;
+        }
+        if has_gpos
+            && tab == "full"
+            && enc::arr(&prog["lookups"]).iter().any(|l| {
+                [4, 5, 6].contains(&enc::int(&l["ty"]))
+                    && enc::arr(&l["subs"]).iter().any(|st| enc::ints(&st["mcov"]["g"]).iter().any(|g| gdef_class(*g) != 3))
+            })
+        {
+            *fam.entry("programs_mark_coverage_not_gdef_mark").or_insert(0) += 1;
+        }
+        let uses_kern = !enc::arr(&prog["kern"]).is_empty() && (!has_gpos || prog["tag"] != "kern");
+        if uses_kern && enc::arr(&prog["kern"]).iter().any(|st| enc::int(&st["cov"]) & 5 == 5) {
+            *fam.entry("programs_kern_cross_stream").or_insert(0) += 1;
+        }
+        if uses_kern && enc::arr(&prog["kern"]).iter().any(|st| enc::int(&st["cov"]) & 1 == 0) {
+            *fam.entry("programs_kern_vertical").or_insert(0) += 1;
+        }
         let case = format!("p{}-{}", pi, kind);
         let mut prep = guarded_str(|| prepare(&prog));
         for input in inputs {
@@ -354,6 +405,9 @@ fn record(seed: u64, n_prog: usize, n_str: usize, out_path: &str) {
                 Ok(p) => match guarded_str(|| run_shape(p, &input)) {
                     Err(e) => json!({"err": e, "infos": [], "ltr": [], "rtl": []}),
                     Ok(sh) => {
+                        if enc::arr(&sh.infos).iter().any(|i| i["pl"]["t"] == "M" && gdef_class(enc::int(&i["g"])) != 3) {
+                            *fam.entry("events_attached_mark_not_gdef_mark").or_insert(0) += 1;
+                        }
                         let err = match (&sh.ltr, &sh.rtl) {
                             (Err(e), _) | (_, Err(e)) => format!("positions:{}", e),
                             _ => String::new(),
@@ -372,7 +426,11 @@ fn record(seed: u64, n_prog: usize, n_str: usize, out_path: &str) {
     for (a, b) in kinds {
         k.insert(a, json!(b));
     }
-    println!("{}", json!({"events": i, "programs": n_prog, "kinds": Value::Object(k)}));
+    let mut fm = serde_json::Map::new();
+    for (a, b) in fam {
+        fm.insert(a.to_string(), json!(b));
+    }
+    println!("{}", json!({"events": i, "programs": n_prog, "kinds": Value::Object(k), "families": Value::Object(fm)}));
 }
 
 // ---- probe ---------------------------------------------------------------------------------------
